@@ -1,6 +1,9 @@
 //! Engine `vault` (C05, C06, C07-vault, C14-share): the real vault contract in cw-multi-test with
 //! three users, a programmable borrower contract (its callback payload *is* the action tree), a fee
-//! collector address and the owner. Observations are public queries + balances (+ LOAN_COUNTER raw).
+//! collector address, the owner, and the REAL vault router (account 5) in front of a harness-local
+//! stub of the vault factory (answers `Vault{asset_info}` with the vault's address; the real factory
+//! is C19's subject, and going through it would make the factory the vault's owner).
+//! Observations are public queries + balances (+ LOAN_COUNTER raw).
 use crate::common::*;
 use cosmwasm_std::{
     coins, to_json_binary, Addr, BankMsg, Binary, CosmosMsg, Decimal, Empty, Response, StdError, Uint128,
@@ -10,12 +13,15 @@ use cw20::{Cw20Coin, Cw20ExecuteMsg, Cw20QueryMsg};
 use cw_multi_test::{App, AppBuilder, BankKeeper, ContractWrapper, Executor};
 use serde::{Deserialize, Serialize};
 use white_whale_std::fee::{Fee, VaultFee};
-use white_whale_std::pool_network::asset::AssetInfo;
+use white_whale_std::pool_network::asset::{Asset, AssetInfo};
 use white_whale_std::vault_network::vault as vmsg;
+use white_whale_std::vault_network::vault_factory as fmsg;
+use white_whale_std::vault_network::vault_router as rmsg;
 
 const DENOM: &str = "uasset";
 const E18: u128 = 1_000_000_000_000_000_000;
-const ACCTS: [&str; 5] = ["alice", "bob", "carol", "adv", "collector"];
+const ACCTS: [&str; 6] = ["alice", "bob", "carol", "adv", "collector", "router"];
+const ROUTER: usize = 5;
 
 #[derive(Debug, Deserialize, Clone, Serialize)]
 #[serde(rename_all = "snake_case")]
@@ -34,6 +40,44 @@ pub fn adv_contract() -> Box<dyn cw_multi_test::Contract<Empty>> {
         },
         |_d, _e, _i, _m: Empty| -> Result<Response, StdError> { Ok(Response::new()) },
         |_d, _e, _m: Empty| -> Result<Binary, StdError> { Err(StdError::generic_err("no queries")) },
+    ))
+}
+
+/// harness-local stand-in for the vault factory: `Register` once, then answers the one query the
+/// router uses (`Vault{asset_info}` -> Option<String>)
+#[derive(Debug, Deserialize, Clone, Serialize)]
+#[serde(rename_all = "snake_case")]
+pub enum StubFactoryMsg {
+    Register { asset_info: AssetInfo, vault: String },
+}
+
+pub fn stub_factory_contract() -> Box<dyn cw_multi_test::Contract<Empty>> {
+    Box::new(ContractWrapper::new(
+        |d, _e, _i, msg: StubFactoryMsg| -> Result<Response, StdError> {
+            match msg {
+                StubFactoryMsg::Register { asset_info, vault } => {
+                    d.storage.set(b"reg", &cosmwasm_std::to_json_vec(&(asset_info, vault))?);
+                    Ok(Response::new())
+                }
+            }
+        },
+        |_d, _e, _i, _m: Empty| -> Result<Response, StdError> { Ok(Response::new()) },
+        |d, _e, m: fmsg::QueryMsg| -> Result<Binary, StdError> {
+            match m {
+                fmsg::QueryMsg::Vault { asset_info } => {
+                    let reg: Option<(AssetInfo, String)> = match d.storage.get(b"reg") {
+                        Some(raw) => Some(cosmwasm_std::from_json(raw)?),
+                        None => None,
+                    };
+                    let ans: Option<String> = match reg {
+                        Some((ai, v)) if ai == asset_info => Some(v),
+                        _ => None,
+                    };
+                    to_json_binary(&ans)
+                }
+                _ => Err(StdError::generic_err("stub factory: only Vault{asset_info}")),
+            }
+        },
     ))
 }
 
@@ -151,6 +195,118 @@ fn parse_list(b: &[char], i: &mut usize) -> Option<Vec<Act>> {
     }
 }
 
+/// payload of a router flash loan: messages executed AS THE ROUTER (same grammar as the Lean driver)
+#[derive(Clone, Debug)]
+pub enum RAct {
+    Fund(u128),
+    Out(usize, u128),
+    Pay(u128),
+    Collect,
+    Deposit(u128),
+    Fail,
+    Adv(Vec<Act>),
+    Complete(usize, u128),
+    RLoan(u128, Vec<RAct>),
+}
+
+pub fn show_racts(a: &[RAct]) -> String {
+    let parts: Vec<String> = a
+        .iter()
+        .map(|x| match x {
+            RAct::Fund(n) => format!("fund:{n}"),
+            RAct::Out(t, n) => format!("out:{t}:{n}"),
+            RAct::Pay(n) => format!("pay:{n}"),
+            RAct::Collect => "collect".into(),
+            RAct::Deposit(n) => format!("dep:{n}"),
+            RAct::Fail => "fail".into(),
+            RAct::Adv(acts) => format!("adv:{}", show_acts(acts)),
+            RAct::Complete(i, n) => format!("complete:{i}:{n}"),
+            RAct::RLoan(n, pl) => format!("rloan:{n}:{}", show_racts(pl)),
+        })
+        .collect();
+    format!("[{}]", parts.join(";"))
+}
+
+pub fn parse_racts(s: &str) -> Option<Vec<RAct>> {
+    let b: Vec<char> = s.chars().collect();
+    let mut i = 0usize;
+    let r = parse_rlist(&b, &mut i)?;
+    if i == b.len() {
+        Some(r)
+    } else {
+        None
+    }
+}
+fn colon(b: &[char], i: &mut usize) -> Option<()> {
+    if b.get(*i) != Some(&':') {
+        return None;
+    }
+    *i += 1;
+    Some(())
+}
+fn parse_rlist(b: &[char], i: &mut usize) -> Option<Vec<RAct>> {
+    if b.get(*i) != Some(&'[') {
+        return None;
+    }
+    *i += 1;
+    let mut out = vec![];
+    if b.get(*i) == Some(&']') {
+        *i += 1;
+        return Some(out);
+    }
+    loop {
+        let st = *i;
+        while *i < b.len() && b[*i].is_ascii_alphabetic() {
+            *i += 1;
+        }
+        let word: String = b[st..*i].iter().collect();
+        let act = match word.as_str() {
+            "collect" => RAct::Collect,
+            "fail" => RAct::Fail,
+            "fund" | "pay" | "dep" => {
+                colon(b, i)?;
+                let n = parse_num(b, i)?;
+                match word.as_str() {
+                    "fund" => RAct::Fund(n),
+                    "pay" => RAct::Pay(n),
+                    _ => RAct::Deposit(n),
+                }
+            }
+            "out" | "complete" => {
+                colon(b, i)?;
+                let t = parse_num(b, i)? as usize;
+                colon(b, i)?;
+                let n = parse_num(b, i)?;
+                if word == "out" {
+                    RAct::Out(t, n)
+                } else {
+                    RAct::Complete(t, n)
+                }
+            }
+            "adv" => {
+                colon(b, i)?;
+                RAct::Adv(parse_list(b, i)?)
+            }
+            "rloan" => {
+                colon(b, i)?;
+                let n = parse_num(b, i)?;
+                colon(b, i)?;
+                RAct::RLoan(n, parse_rlist(b, i)?)
+            }
+            _ => return None,
+        };
+        out.push(act);
+        match b.get(*i) {
+            Some(&';') => *i += 1,
+            Some(&']') => {
+                *i += 1;
+                return Some(out);
+            }
+            _ => return None,
+        }
+    }
+}
+
 #[derive(Clone, Debug, PartialEq, Default)]
 pub struct Obs {
     pub bal: u128,
@@ -186,6 +342,7 @@ pub struct World {
     lp: Addr,
     asset_token: Option<Addr>,
     adv: Addr,
+    router: Addr,
     owner: Addr,
     accts: Vec<Addr>,
     fees: (u128, u128, u128),
@@ -230,6 +387,25 @@ impl World {
         let adv_id = app.store_code(adv_contract());
         let adv = app.instantiate_contract(adv_id, owner.clone(), &Empty {}, &[], "adv", None).unwrap();
         accts[3] = adv.clone();
+        // the vault router in front of a stub factory (registered below, once the vault exists)
+        let factory_id = app.store_code(stub_factory_contract());
+        let factory = app.instantiate_contract(factory_id, owner.clone(), &Empty {}, &[], "stub-factory", None).unwrap();
+        let router_id = app.store_code(Box::new(ContractWrapper::new(
+            vault_router::contract::execute,
+            vault_router::contract::instantiate,
+            vault_router::contract::query,
+        )));
+        let router = app
+            .instantiate_contract(
+                router_id,
+                owner.clone(),
+                &rmsg::InstantiateMsg { owner: owner.to_string(), vault_factory_addr: factory.to_string() },
+                &[],
+                "router",
+                None,
+            )
+            .unwrap();
+        accts[ROUTER] = router.clone();
         let mut asset_token = None;
         let asset_info = if kind == 0 {
             for (i, a) in accts.iter().enumerate() {
@@ -275,7 +451,7 @@ impl World {
                 owner.clone(),
                 &vmsg::InstantiateMsg {
                     owner: owner.to_string(),
-                    asset_info,
+                    asset_info: asset_info.clone(),
                     token_id,
                     vault_fees: VaultFee {
                         protocol_fee: Fee { share: Decimal::raw(fees.0) },
@@ -290,6 +466,13 @@ impl World {
                 None,
             )
             .unwrap();
+        app.execute_contract(
+            owner.clone(),
+            factory.clone(),
+            &StubFactoryMsg::Register { asset_info: asset_info.clone(), vault: vault.to_string() },
+            &[],
+        )
+        .unwrap();
         let cfg: vmsg::Config = app.wrap().query_wasm_smart(&vault, &vmsg::QueryMsg::Config {}).unwrap();
         let lp = match cfg.lp_asset {
             AssetInfo::Token { contract_addr } => Addr::unchecked(contract_addr),
@@ -302,6 +485,7 @@ impl World {
             lp,
             asset_token,
             adv,
+            router,
             owner,
             accts,
             fees,
@@ -453,6 +637,98 @@ impl World {
             }
         }
         out
+    }
+
+    fn asset_info(&self) -> AssetInfo {
+        match &self.asset_token {
+            None => AssetInfo::NativeToken { denom: DENOM.into() },
+            Some(t) => AssetInfo::Token { contract_addr: t.to_string() },
+        }
+    }
+
+    fn asset(&self, n: u128) -> Asset {
+        Asset { info: self.asset_info(), amount: n.into() }
+    }
+
+    fn wasm(&self, to: &Addr, msg: Binary) -> CosmosMsg {
+        WasmMsg::Execute { contract_addr: to.to_string(), msg, funds: vec![] }.into()
+    }
+
+    /// router `FlashLoan{assets, msgs = payload}`
+    fn router_loan_msg(&self, assets: Vec<Asset>, payload: &[RAct]) -> rmsg::ExecuteMsg {
+        rmsg::ExecuteMsg::FlashLoan { assets, msgs: self.racts_to_msgs(payload) }
+    }
+
+    /// the payload's messages; the ROUTER executes them
+    fn racts_to_msgs(&self, acts: &[RAct]) -> Vec<CosmosMsg> {
+        let mut out = vec![];
+        for a in acts {
+            match a {
+                RAct::Fund(n) => out.push(self.wasm(
+                    &self.adv,
+                    to_json_binary(&AdvMsg::Run { msgs: vec![self.pay_msg(&self.router, *n)] }).unwrap(),
+                )),
+                RAct::Out(t, n) => {
+                    if *t < 3 {
+                        out.push(self.pay_msg(&self.accts[*t], *n))
+                    } else {
+                        out.push(self.fail_msg())
+                    }
+                }
+                RAct::Pay(n) => out.push(self.pay_msg(&self.vault, *n)),
+                RAct::Collect => out.push(self.wasm(&self.vault, to_json_binary(&vmsg::ExecuteMsg::CollectProtocolFees {}).unwrap())),
+                RAct::Deposit(n) => {
+                    if let Some(t) = &self.asset_token {
+                        out.push(self.wasm(
+                            t,
+                            to_json_binary(&Cw20ExecuteMsg::IncreaseAllowance { spender: self.vault.to_string(), amount: (*n).into(), expires: None })
+                                .unwrap(),
+                        ));
+                    }
+                    out.push(
+                        WasmMsg::Execute {
+                            contract_addr: self.vault.to_string(),
+                            msg: to_json_binary(&vmsg::ExecuteMsg::Deposit { amount: (*n).into() }).unwrap(),
+                            funds: if self.kind == 0 && *n > 0 { coins(*n, DENOM) } else { vec![] },
+                        }
+                        .into(),
+                    );
+                }
+                RAct::Fail => out.push(self.fail_msg()),
+                RAct::Adv(acts) => out.push(self.wasm(&self.adv, to_json_binary(&AdvMsg::Run { msgs: self.acts_to_msgs(acts) }).unwrap())),
+                RAct::Complete(i, n) => {
+                    if *i < 4 {
+                        out.push(self.wasm(
+                            &self.router,
+                            to_json_binary(&rmsg::ExecuteMsg::CompleteLoan {
+                                initiator: self.accts[*i].clone(),
+                                loaned_assets: vec![(self.vault.to_string(), self.asset(*n))],
+                            })
+                            .unwrap(),
+                        ))
+                    } else {
+                        out.push(self.fail_msg())
+                    }
+                }
+                RAct::RLoan(n, pl) => {
+                    out.push(self.wasm(&self.router, to_json_binary(&self.router_loan_msg(vec![self.asset(*n)], pl)).unwrap()))
+                }
+            }
+        }
+        out
+    }
+
+    /// execute `msg` on the router as account `who` (0..2 directly, 3 = the borrower contract via `Run`)
+    fn call_router(&mut self, who: usize, msg: &rmsg::ExecuteMsg) -> bool {
+        let r = if who < 3 {
+            let (a, r) = (self.accts[who].clone(), self.router.clone());
+            guarded(|| self.app.execute_contract(a, r, msg, &[]))
+        } else {
+            let run = AdvMsg::Run { msgs: vec![self.wasm(&self.router, to_json_binary(msg).unwrap())] };
+            let (a, adv) = (self.accts[0].clone(), self.adv.clone());
+            guarded(|| self.app.execute_contract(a, adv, &run, &[]))
+        };
+        matches!(r, Outcome::Ok(_))
     }
 
     fn fail_msg(&self) -> CosmosMsg {
@@ -637,6 +913,94 @@ impl VaultEngine {
                 let r = guarded(|| w.app.execute(who, m));
                 ok = matches!(r, Outcome::Ok(_));
             }
+            "rloan" => {
+                // rloan <initiator> <amount> <payload>
+                if ws.len() != 4 {
+                    return Err(());
+                }
+                let i: usize = ws[1].parse().map_err(|_| ())?;
+                let n: u128 = ws[2].parse().map_err(|_| ())?;
+                let pl = parse_racts(ws[3]).ok_or(())?;
+                if i > 3 {
+                    return Err(());
+                }
+                let msg = w.router_loan_msg(vec![w.asset(n)], &pl);
+                ok = w.call_router(i, &msg);
+            }
+            "rloan0" => {
+                if ws.len() != 3 {
+                    return Err(());
+                }
+                let i: usize = ws[1].parse().map_err(|_| ())?;
+                let pl = parse_racts(ws[2]).ok_or(())?;
+                if i > 3 {
+                    return Err(());
+                }
+                let msg = w.router_loan_msg(vec![], &pl);
+                ok = w.call_router(i, &msg);
+            }
+            "rloan2" => {
+                if ws.len() != 5 {
+                    return Err(());
+                }
+                let i: usize = ws[1].parse().map_err(|_| ())?;
+                let a1: u128 = ws[2].parse().map_err(|_| ())?;
+                let a2: u128 = ws[3].parse().map_err(|_| ())?;
+                let pl = parse_racts(ws[4]).ok_or(())?;
+                if i > 3 {
+                    return Err(());
+                }
+                let msg = w.router_loan_msg(vec![w.asset(a1), w.asset(a2)], &pl);
+                ok = w.call_router(i, &msg);
+            }
+            "rfund" => {
+                let a = nums(1).ok_or(())?;
+                if a.len() != 2 || a[0] > 3 {
+                    return Err(());
+                }
+                let who = w.accts[a[0] as usize].clone();
+                let m = w.pay_msg(&w.router.clone(), a[1]);
+                let r = if a[0] < 3 {
+                    guarded(|| w.app.execute(who, m))
+                } else {
+                    let run = AdvMsg::Run { msgs: vec![m] };
+                    guarded(|| w.app.execute_contract(w.accts[0].clone(), w.adv.clone(), &run, &[]))
+                };
+                ok = matches!(r, Outcome::Ok(_));
+            }
+            "xnext" => {
+                // a stranger calls the router's NextLoan directly, naming the real vault as source
+                if ws.len() != 4 {
+                    return Err(());
+                }
+                let i: usize = ws[1].parse().map_err(|_| ())?;
+                let n: u128 = ws[2].parse().map_err(|_| ())?;
+                let pl = parse_racts(ws[3]).ok_or(())?;
+                if i > 3 {
+                    return Err(());
+                }
+                let msg = rmsg::ExecuteMsg::NextLoan {
+                    initiator: w.accts[i].clone(),
+                    source_vault: w.vault.to_string(),
+                    source_vault_asset_info: w.asset_info(),
+                    payload: w.racts_to_msgs(&pl),
+                    to_loan: vec![],
+                    loaned_assets: vec![(w.vault.to_string(), w.asset(n))],
+                };
+                ok = w.call_router(i, &msg);
+            }
+            "xcomplete" => {
+                // a stranger calls the router's CompleteLoan directly
+                let a = nums(1).ok_or(())?;
+                if a.len() != 3 || a[0] > 3 || a[1] > 3 {
+                    return Err(());
+                }
+                let msg = rmsg::ExecuteMsg::CompleteLoan {
+                    initiator: w.accts[a[1] as usize].clone(),
+                    loaned_assets: vec![(w.vault.to_string(), w.asset(a[2]))],
+                };
+                ok = w.call_router(a[0] as usize, &msg);
+            }
             _ => return Err(()),
         }
         Ok(ok)
@@ -660,6 +1024,56 @@ impl VaultEngine {
                     }
                 }
             }
+        }
+        if ws[0] == "rloan" {
+            // router payback exactness: a payload that only funds the router with X succeeds iff
+            // router_pre_balance + loan + X >= quoted payback
+            if let Some(pl) = parse_racts(ws[3]) {
+                let res = if ok { "ok" } else { "err" };
+                for a in &pl {
+                    let k = match a {
+                        RAct::Fund(_) => continue,
+                        RAct::Out(..) => "out",
+                        RAct::Pay(_) => "pay",
+                        RAct::Collect => "collect",
+                        RAct::Deposit(_) => "deposit",
+                        RAct::Fail => "fail",
+                        RAct::Adv(_) => "adv",
+                        RAct::Complete(..) => "complete",
+                        RAct::RLoan(..) => "nested",
+                    };
+                    mon.stat(&format!("rloan_{res}_with_{k}"));
+                }
+                if ws[1] == "3" {
+                    mon.stat(&format!("rloan_{res}_initiator_is_contract"));
+                }
+                if let [RAct::Fund(x)] = pl[..] {
+                    let n: u128 = ws[2].parse().unwrap();
+                    let pb = n + fee_of(before.fees.0, n) + fee_of(before.fees.1, n) + fee_of(before.fees.2, n);
+                    let pre = before.tog.2 && n > 0 && n <= before.bal && x > 0 && before.ab[3] >= x;
+                    if pre {
+                        let have = before.ab[ROUTER] + n + x;
+                        mon.check("C06", "router_payback_exact", ok == (have >= pb), || {
+                            ctx(&format!("fund-only payload: router holds {} + {n} + {x} = {have}, quoted payback {pb}", before.ab[ROUTER]))
+                        });
+                        mon.stat(if have == pb { "router_payback_at_exact" } else if have + 1 == pb { "router_payback_one_less" } else { "router_payback_other" });
+                        if before.ab[ROUTER] > 0 {
+                            mon.stat("router_payback_prefunded");
+                        }
+                    }
+                }
+            }
+        }
+        match ws[0] {
+            "xnext" | "xcomplete" => {
+                mon.check("C06", "router_callbacks_guarded", !ok, || ctx("NextLoan / CompleteLoan accepted from a stranger"));
+                if before.ab[ROUTER] > 0 {
+                    mon.stat("router_guard_probe_with_funds");
+                }
+            }
+            "rloan2" => mon.check("C06", "router_multi_asset_refused", !ok, || ctx("router accepted a loan of two assets")),
+            "rloan0" => mon.check("C06", "router_zero_assets_noop", ok && before == after, || ctx("router loan of zero assets did something")),
+            _ => {}
         }
         if !ok {
             mon.check("C06", "failed_op_changes_nothing", before == after, || ctx("a failed transaction changed an observable"));
@@ -710,11 +1124,11 @@ impl VaultEngine {
             "collect" => {
                 mon.check("C07", "vault_collect_exact", dcol == before.pend && after.pend == 0 && before.bal == after.bal + before.pend, || ctx("collect did not transfer exactly the pending fees"));
                 mon.check("C07", "vault_collect_keeps_reserves", r0 == r1 && before.sup == after.sup, || ctx("collect changed LP reserves"));
-                mon.check("C07", "vault_collect_only_collector", (0..4).all(|i| before.ab[i] == after.ab[i]), || ctx("collect paid someone else"));
+                mon.check("C07", "vault_collect_only_collector", (0..6).filter(|i| *i != 4).all(|i| before.ab[i] == after.ab[i]), || ctx("collect paid someone else"));
                 w.last_deposit = None;
             }
-            "loan" => {
-                let n: u128 = ws[1].parse().unwrap();
+            "loan" | "rloan" => {
+                let n: u128 = ws[if ws[0] == "loan" { 1 } else { 2 }].parse().unwrap();
                 let (pf, ff, bf) = (fee_of(before.fees.0, n), fee_of(before.fees.1, n), fee_of(before.fees.2, n));
                 w.charged += pf;
                 w.burned_sum += bf;
@@ -725,12 +1139,59 @@ impl VaultEngine {
                 mon.check("C06", "loan_counter_zero", after.ctr == 0, || ctx("loan counter not back to zero"));
                 w.last_deposit = None;
                 mon.stat("mon_loan_ok");
+                if ws[0] == "rloan" {
+                    mon.stat("mon_rloan_ok");
+                    let i: usize = ws[1].parse().unwrap();
+                    let pl = parse_racts(ws[3]).unwrap();
+                    // the router keeps nothing - also nothing of what it held before the loan
+                    mon.check("C06", "router_keeps_nothing", after.ab[ROUTER] == 0, || ctx("router holds funds after a completed loan"));
+                    if before.ab[ROUTER] > 0 {
+                        mon.stat("mon_rloan_ok_prefunded");
+                    }
+                    // payloads that only move plain funds: everything is determined
+                    let simple = pl.iter().all(|a| matches!(a, RAct::Fund(_) | RAct::Out(..) | RAct::Pay(_)));
+                    if simple {
+                        let pb = n + pf + ff + bf;
+                        let mut exp = before.ab.clone();
+                        let mut router = before.ab[ROUTER] as i128 + n as i128;
+                        let mut paid = 0u128;
+                        for a in &pl {
+                            match a {
+                                RAct::Fund(x) => {
+                                    exp[3] -= *x;
+                                    router += *x as i128;
+                                }
+                                RAct::Out(t, x) => {
+                                    exp[*t] += *x;
+                                    router -= *x as i128;
+                                }
+                                RAct::Pay(x) => {
+                                    paid += *x;
+                                    router -= *x as i128;
+                                }
+                                _ => {}
+                            }
+                        }
+                        let rest = router - pb as i128;
+                        exp[ROUTER] = 0;
+                        if rest >= 0 {
+                            exp[i] += rest as u128;
+                        }
+                        mon.check(
+                            "C06",
+                            "router_pays_quote_and_forwards_rest",
+                            rest >= 0 && after.bal + bf + n == before.bal + paid + pb && after.ab == exp,
+                            || ctx(&format!("router held {router} at CompleteLoan, quote {pb}: expected the vault to get exactly the quote and balances {exp:?}")),
+                        );
+                        mon.stat(if rest > 0 { "mon_rloan_profit_forwarded" } else { "mon_rloan_no_profit" });
+                    }
+                }
             }
             _ => {
                 w.last_deposit = None;
             }
         }
-        if ws[0] != "collect" && ws[0] != "loan" {
+        if ws[0] != "collect" && ws[0] != "loan" && ws[0] != "rloan" {
             mon.check("C07", "vault_only_collect_pays_collector", dcol == 0, || ctx("collector balance moved outside a collection"));
         }
         mon.check("C07", "vault_pending_ledger", after.pend + w.sent_to_collector == w.charged, || {
@@ -748,10 +1209,10 @@ impl Engine for VaultEngine {
             return "bad-op".into();
         }
         if ws[0] == "init" {
-            // init vault kind=K p=.. f=.. b=.. bals=a,b,c,d,e
+            // init vault kind=K p=.. f=.. b=.. bals=a,b,c,d,e,r
             let mut kind = 0u8;
             let mut fees = (0u128, 0u128, 0u128);
-            let mut bals = vec![0u128; 5];
+            let mut bals = vec![0u128; 6];
             for t in &ws[2..] {
                 let kv: Vec<&str> = t.split('=').collect();
                 if kv.len() != 2 {
@@ -766,7 +1227,7 @@ impl Engine for VaultEngine {
                     _ => return "bad-op".into(),
                 }
             }
-            if bals.len() != 5 {
+            if bals.len() != 6 {
                 return "bad-op".into();
             }
             self.w = Some(World::new(kind, fees, &bals));
@@ -792,10 +1253,13 @@ impl Engine for VaultEngine {
             let kind = rng.below(2);
             let (p, f, b) = if rng.chance(1, 8) { (0, 0, 0) } else { rng.valid_fees() };
             let big = rng.chance(1, 4);
-            let bals: Vec<String> = (0..5)
+            let bals: Vec<String> = (0..6)
                 .map(|i| {
                     if i == 4 {
                         "0".to_string()
+                    } else if i == ROUTER {
+                        // the router mostly starts empty, sometimes with stray funds
+                        if rng.chance(1, 6) { (rng.u128() % 5000 + 1).to_string() } else { "0".to_string() }
                     } else if big {
                         (1u128 << 110).to_string()
                     } else {
@@ -874,6 +1338,46 @@ impl Engine for VaultEngine {
             let n = small(rng, o.ab[who]);
             return Some(format!("donate {who} {n}"));
         }
+        if r < 61 {
+            // stray funds for the router
+            let n = match rng.below(8) {
+                0 => 0,
+                1 => o.ab[who] + 1,
+                2 => small(rng, o.ab[who]),
+                _ => rng.u128() % 3000 + 1,
+            };
+            return Some(format!("rfund {who} {n}"));
+        }
+        if r < 64 {
+            // router calls that must be refused (or do nothing); probe the guards while the router holds funds
+            if o.ab[ROUTER] == 0 && rng.chance(2, 3) {
+                return Some(format!("rfund {who} {}", rng.u128() % 3000 + 1));
+            }
+            let have = o.ab[ROUTER];
+            return Some(match rng.below(6) {
+                0 | 1 => {
+                    // NextLoan by a stranger: empty payload and a loan size whose payback the router can cover
+                    let a = if have > 1 && rng.chance(3, 4) { rng.u128() % (have / 2) + 1 } else { 0 };
+                    format!("xnext {who} {a} []")
+                }
+                2 => {
+                    let k = if have > 0 { rng.u128() % have + 1 } else { 1 };
+                    let a = if rng.chance(1, 2) { 0 } else { have.saturating_sub(k) / 2 };
+                    format!("xnext {who} {a} {}", show_racts(&[RAct::Out(rng.below(3) as usize, k)]))
+                }
+                3 | 4 => {
+                    let a = if have > 1 && rng.chance(3, 4) { rng.u128() % (have / 2) + 1 } else { 0 };
+                    format!("xcomplete {who} {} {a}", rng.below(4))
+                }
+                _ => {
+                    if rng.chance(1, 2) {
+                        format!("rloan0 {who} {}", show_racts(&[RAct::Out(0, have.max(1))]))
+                    } else {
+                        format!("rloan2 {who} {} {} []", small(rng, o.bal), small(rng, o.bal))
+                    }
+                }
+            });
+        }
         // loan
         let n = match rng.below(10) {
             0 => o.bal,
@@ -895,6 +1399,11 @@ impl Engine for VaultEngine {
             };
             let cb = vec![Act::Loan(n2, vec![Act::Pay(payback(n2))]), Act::Pay(payback(n1).saturating_sub(short).max(1))];
             return Some(format!("loan {n1} {}", show_acts(&cb)));
+        }
+        if rng.chance(27, 100) {
+            // through the vault router
+            let pl = gen_payload(rng, &o, n, pb, 0);
+            return Some(format!("rloan {who} {n} {}", show_racts(&pl)));
         }
         let cb = gen_cb(rng, &o, n, pb, 0);
         Some(format!("loan {n} {}", show_acts(&cb)))
@@ -950,6 +1459,91 @@ fn gen_cb(rng: &mut Rng, o: &Obs, n: u128, pb: u128, depth: u32) -> Vec<Act> {
     if pay > 0 || rng.chance(1, 2) {
         let pos = if acts.is_empty() { 0 } else { rng.below(acts.len() as u64 + 1) as usize };
         acts.insert(pos, Act::Pay(pay));
+    }
+    acts
+}
+
+/// router payloads: mostly a single funding around the exact payback boundary (profit / exact / one
+/// unit short, with and without stray router funds), otherwise mixed with sends, direct payments,
+/// collections, deposits, failures, borrower-contract subtrees, early CompleteLoan, nested router loans
+fn gen_payload(rng: &mut Rng, o: &Obs, n: u128, pb: u128, depth: u32) -> Vec<RAct> {
+    let pre = o.ab[ROUTER];
+    // what still has to reach the router so that it holds exactly the payback at CompleteLoan
+    let mut need = pb.saturating_sub(n).saturating_sub(pre);
+    let mut acts = vec![];
+    let extra = if rng.chance(45, 100) { 0 } else { rng.range(1, if depth >= 1 { 2 } else { 3 }) };
+    for _ in 0..extra {
+        match rng.below(11) {
+            0 | 1 => {
+                let x = rng.u128() % 1000 + 1;
+                acts.push(RAct::Out(rng.below(4) as usize, x));
+                need = need.saturating_add(x);
+            }
+            2 => {
+                let x = rng.u128() % 1000 + 1;
+                acts.push(RAct::Pay(x));
+                need = need.saturating_add(x);
+            }
+            3 => {
+                // collecting during the loan lowers the vault's balance: pay the pending fees back in
+                acts.push(RAct::Collect);
+                if o.pend > 0 {
+                    acts.push(RAct::Pay(o.pend));
+                    need = need.saturating_add(o.pend);
+                }
+            }
+            4 => acts.push(RAct::Deposit(rng.u128() % 1_000_000 + 1)),
+            5 => {
+                if rng.chance(1, 2) {
+                    acts.push(RAct::Fail)
+                }
+            }
+            6 => {
+                if depth < 2 {
+                    let m = rng.u128() % (o.bal.saturating_sub(n) + 1) + rng.below(2) as u128;
+                    let inner = gen_payload(rng, o, m, m + m / 50, depth + 1);
+                    acts.push(RAct::RLoan(m, inner));
+                }
+            }
+            7 | 8 => {
+                // the borrower contract acts during the router's loan
+                let sub = match rng.below(6) {
+                    0 => vec![Act::Collect, Act::Pay(o.pend.max(1))],
+                    1 => vec![Act::Pay(rng.u128() % 1000 + 1)],
+                    2 => {
+                        let lp = o.lb[3];
+                        if lp > 0 && o.sup > 0 {
+                            let x = rng.u128() % lp + 1;
+                            let est = (u512(o.bal) * u512(x) / u512(o.sup)).to_string().parse::<u128>().unwrap_or(u128::MAX / 4) + 1;
+                            vec![Act::Withdraw(x), Act::Pay(est)]
+                        } else {
+                            vec![Act::Out(rng.below(3) as usize, rng.u128() % 1000 + 1)]
+                        }
+                    }
+                    3 => vec![Act::Loan(rng.u128() % (o.bal + 1), vec![Act::Pay(1)])],
+                    4 => vec![Act::Deposit(rng.u128() % 1000 + 1)],
+                    _ => vec![Act::Out(rng.below(3) as usize, rng.u128() % 1000 + 1)],
+                };
+                acts.push(RAct::Adv(sub));
+            }
+            9 => acts.push(RAct::Complete(rng.below(5) as usize, rng.u128() % 1000)),
+            _ => {
+                let x = rng.u128() % 1000 + 1;
+                acts.push(RAct::Fund(x));
+                need = need.saturating_sub(x);
+            }
+        }
+    }
+    let fund = match rng.below(12) {
+        0 | 1 => need.saturating_sub(1),
+        2 => need + 1,
+        3 => 0,
+        4 | 5 => need.saturating_add(rng.u128() % 5000 + 1),
+        _ => need,
+    };
+    if fund > 0 || rng.chance(1, 3) {
+        let pos = if acts.is_empty() { 0 } else { rng.below(acts.len() as u64 + 1) as usize };
+        acts.insert(pos, RAct::Fund(fund));
     }
     acts
 }
